@@ -532,6 +532,8 @@ fn fold_merge_pairs<E>(
 ) -> Result<E, ClientError> {
     let mut q: VecDeque<E> = entries.into_iter().collect();
     while let Some(left) = q.pop_front() {
+        #[cfg(aranya_verif)]
+        crate::verif::tick();
         let Some(right) = q.pop_front() else {
             return Ok(left);
         };
